@@ -171,6 +171,10 @@ def main(argv=None):
     cov.setdefault("distinct_nontrivial", len(m["hashes"]))
     cov.setdefault("samples", m["samples"][:4] or [{"note": "no sample recorded"}])
     cov["counters"] = {k: v for k, v in sorted(m["counters"].items())}
+    if m["counters"].get("remote_runs") and "remote" not in cov.get("rule", ""):
+        cov["remote_sample_note"] = ("counter remote_runs: the same generated scenarios with every simulator as a real "
+                                     "process over TCP (real random sleeps); the same oracle judges the event list "
+                                     "merged by the system-wide monotonic clock")
     cov["known_findings_matched"] = dict(known)
     cov["unlisted_violations"] = len(unlisted)
     cov["failed_workers"] = m["failed_workers"]
